@@ -158,6 +158,18 @@ CLAIMED["C06"] = dict(
          "cryptography API, no AHAB key stubs in this round).",
     ref="DESIGN.md section 3 C06")
 
+CLAIMED["C07"] = dict(
+    technique="symbolic execution of the real HAB container builder / parser on the repository's BD configurations with a "
+              "partly symbolic application of chosen length; the exported bytes are re-read by an independent IVT / boot-data "
+              "/ CSF command walker; AES-CCM is an ideal cipher with an uninterpreted tag function of (key, nonce, data, tag "
+              "length), the CMS signer a recorder; z3 QF_BV / QF_UFBV decides pointer, length, coverage and decryption "
+              "obligations",
+    note="Decided: layout round trip, what the CSF signatures are computed over and that the listed blocks cover IVT, boot "
+         "data, DCD and application, decrypt-data block / nonce / MAC parameters and that decryption restores the "
+         "application. NOT decided: that the CMS signatures verify and chain to the SRK table (real X.509/CMS crypto), XMCD, "
+         "parsing of encrypted images.",
+    ref="DESIGN.md section 3 C07")
+
 NOT_APPLICABLE = {
     "C18": "quantifies over OS-level crash points of a pickle file and over process schedules around a FileLock; the "
            "deciding code is pickle (C) / the file system / the scheduler - no SPSDK arithmetic or layout to encode; "
